@@ -2,6 +2,7 @@ import Refinery.Model.Decode
 import Refinery.Props.C08
 import Refinery.Props.C11
 import Refinery.Gen.Encoding
+import Std.Data.String.ToInt
 /-!
 # C09 — sampling does not depend on wire encoding or span order
 
@@ -87,5 +88,731 @@ theorem getSampleRate_congr (E : Ext) (t₁ t₂ : Rules.Trace) (down₁ down₂
   | cons r rs ih =>
     simp only [Rules.getSampleRate, hm r List.mem_cons_self]
     rw [ih (fun r' hr' => hm r' (List.mem_cons_of_mem _ hr'))]
+
+/-! ## order invariance -/
+
+/-- "dynamic keys are compared only below the 100-distinct-value cap": fewer than `cap` distinct
+values are involved in the dynamic sampler's key and in the key of every dynsampler-backed
+downstream sampler of the rules. -/
+def BelowCaps (S : Samplers) (spans : List ESpan) : Prop :=
+  C11.BelowCap S.cap S.pre S.x S.keyCfg (spans.map (keySpan S.dec)) ∧
+  ∀ id c ans r, S.downs id = .keyed c ans r → C11.BelowCap S.cap S.pre S.x c (spans.map (keySpan S.dec))
+
+theorem key_perm (S : Samplers) (c : TraceKey.Cfg) (root : Option ESpan) (s₁ s₂ : List ESpan) (h : s₁.Perm s₂)
+    (hcap : C11.BelowCap S.cap S.pre S.x c (s₁.map (keySpan S.dec))) :
+    TraceKey.key S.cap S.pre S.x c (keyTrace S.dec ⟨s₁, root⟩) =
+      TraceKey.key S.cap S.pre S.x c (keyTrace S.dec ⟨s₂, root⟩) := by
+  unfold TraceKey.key keyTrace
+  rw [C11.perm_invariant S.cap S.pre S.x c (root.map (keySpan S.dec)) _ _ (h.map (keySpan S.dec)) hcap]
+
+/-- **order_invariant** — for every sampler configuration (rules in trace and span scope, with or
+without downstream samplers; dynamic sampler with any key fields), every trace and every
+permutation of its spans (the root span being the same span), the rules sampler's decision, rate,
+reason and key and the dynamic sampler's key, rate and decision are the same, while fewer than the
+cap of distinct values are involved in the keys. -/
+theorem order_invariant (S : Samplers) (root : Option ESpan) (s₁ s₂ : List ESpan) (h : s₁.Perm s₂)
+    (hcap : BelowCaps S s₁) : outcome S ⟨s₁, root⟩ = outcome S ⟨s₂, root⟩ := by
+  have hlen : (s₁.map (keySpan S.dec)).length = (s₂.map (keySpan S.dec)).length := by
+    simp [h.length_eq]
+  have hk := key_perm S S.keyCfg root s₁ s₂ h hcap.1
+  have hdyn : dynOutcome S ⟨s₁, root⟩ = dynOutcome S ⟨s₂, root⟩ := by
+    unfold dynOutcome TraceKey.getSampleRate
+    simp only [hk]
+    simp only [keyTrace, hlen]
+  have hdown : ∀ id, downOf S (keyTrace S.dec ⟨s₁, root⟩) id = downOf S (keyTrace S.dec ⟨s₂, root⟩) id := by
+    intro id
+    unfold downOf
+    cases hd : S.downs id with
+    | missing => rfl
+    | fixed d => rfl
+    | keyed c ans r =>
+      simp only [key_perm S c root s₁ s₂ h (hcap.2 id c ans r hd)]
+      simp only [keyTrace, hlen]
+  have hrules : rulesOutcome S ⟨s₁, root⟩ = rulesOutcome S ⟨s₂, root⟩ := by
+    unfold rulesOutcome
+    apply getSampleRate_congr
+    · intro r _
+      exact ruleMatches_perm S.E (root.map (rulesSpan S.dec)) _ _ (h.map (rulesSpan S.dec)) r
+    · exact hdown
+  simp only [outcome, hdyn, hrules]
+
+structure RSim (E : Ext) (v₁ v₂ : Val) : Prop where
+  fmt : E.fmt v₁ = E.fmt v₂
+  int : Rules.tryInt E v₁ = Rules.tryInt E v₂
+  flt : Rules.tryFloat E v₁ = Rules.tryFloat E v₂
+  cmp : ∀ c, Rules.compareVals v₁ c = Rules.compareVals v₂ c
+
+theorem compareMatcher_sim (E : Ext) (c : Cond) {v₁ v₂ : Val} (h : RSim E v₁ v₂) (ex : Bool)
+    (f : Rules.Matcher) (hf : Rules.compareMatcher E c = some f) : f v₁ ex = f v₂ ex := by
+  unfold Rules.compareMatcher at hf
+  cases hdt : c.dt <;> simp only [hdt] at hf
+  · cases hf
+  · cases hf; simp only [h.fmt]
+  · cases hv : Rules.tryInt E c.val <;> simp only [hv] at hf
+    · cases hf
+    · cases hf; simp only [h.int]
+  · cases hv : Rules.tryFloat E c.val <;> simp only [hv] at hf
+    · cases hf
+    · cases hf; simp only [h.flt]
+  · split at hf
+    · cases hf; simp only [Rules.toBool, h.fmt]
+    · cases hf
+
+theorem inBase_sim (E : Ext) (c : Cond) {v₁ v₂ : Val} (h : RSim E v₁ v₂)
+    (f : Val → Bool) (hf : Rules.inBase E c = some f) : f v₁ = f v₂ := by
+  unfold Rules.inBase at hf
+  cases hi : Rules.inItems c <;> simp only [hi] at hf
+  · cases hf
+  · cases hdt : c.dt <;> simp only [hdt] at hf
+    · cases hf; simp only [h.fmt]
+    · cases hf; simp only [h.fmt]
+    · cases hf; simp only [h.int]
+    · cases hf; simp only [h.flt]
+    · cases hf
+
+theorem matcher_sim (E : Ext) (c : Cond) {v₁ v₂ : Val} (h : RSim E v₁ v₂) (ex : Bool) (f : Rules.Matcher)
+    (hf : Rules.matcher E c = some f) : f v₁ ex = f v₂ ex := by
+  unfold Rules.matcher at hf
+  cases hop : c.op <;> simp only [hop] at hf
+  all_goals first
+    | (cases hf; done)
+    | (cases hf; simp [h.fmt]; done)
+    | exact compareMatcher_sim E c h ex f hf
+    | skip
+  · split at hf
+    · cases hf; simp only [h.fmt]
+    · cases hf
+  · cases hb : Rules.inBase E c <;> simp only [hb] at hf
+    · cases hf
+    · cases hf; exact inBase_sim E c h _ hb
+  · cases hb : Rules.inBase E c <;> simp only [hb] at hf
+    · cases hf
+    · cases hf; simp only [inBase_sim E c h _ hb]
+
+/-- Values the four coercions cannot tell apart are matched alike by every condition. -/
+theorem condValue_sim (E : Ext) (c : Cond) {v₁ v₂ : Val} (h : RSim E v₁ v₂) (ex : Bool) :
+    condValue E c v₁ ex = condValue E c v₂ ex := by
+  unfold condValue
+  cases hm : Rules.matcherOf E c with
+  | none => simp only [Rules.untyped, h.cmp]
+  | some f =>
+    simp only
+    unfold Rules.matcherOf at hm
+    split at hm
+    · cases hm
+    · exact matcher_sim E c h ex f hm
+
+
+theorem RSim.rfl' (E : Ext) (v : Val) : RSim E v v := ⟨rfl, rfl, rfl, fun _ => rfl⟩
+
+/-- pointwise relation of two lists of the same length (core has no `Forall₂`) -/
+inductive All₂ {α β : Type} (R : α → β → Prop) : List α → List β → Prop
+  | nil : All₂ R [] []
+  | cons {a b l₁ l₂} : R a b → All₂ R l₁ l₂ → All₂ R (a :: l₁) (b :: l₂)
+
+theorem All₂.length_eq {α β : Type} {R : α → β → Prop} {l₁ : List α} {l₂ : List β} (h : All₂ R l₁ l₂) :
+    l₁.length = l₂.length := by
+  induction h with
+  | nil => rfl
+  | cons _ _ ih => simp [ih]
+
+theorem All₂.map {α β γ δ : Type} {R : α → β → Prop} {Q : γ → δ → Prop} {f : α → γ} {g : β → δ}
+    (hfg : ∀ a b, R a b → Q (f a) (g b)) {l₁ : List α} {l₂ : List β} (h : All₂ R l₁ l₂) :
+    All₂ Q (l₁.map f) (l₂.map g) := by
+  induction h with
+  | nil => exact .nil
+  | cons hab _ ih => exact .cons (hfg _ _ hab) ih
+
+theorem All₂.imp {α β : Type} {R Q : α → β → Prop} (hRQ : ∀ a b, R a b → Q a b) {l₁ : List α} {l₂ : List β}
+    (h : All₂ R l₁ l₂) : All₂ Q l₁ l₂ := by
+  induction h with
+  | nil => exact .nil
+  | cons hab _ ih => exact .cons (hRQ _ _ hab) ih
+
+theorem optRel_imp {α β : Type} {R Q : α → β → Prop} (hRQ : ∀ a b, R a b → Q a b) {o₁ : Option α} {o₂ : Option β}
+    (h : Option.Rel R o₁ o₂) : Option.Rel Q o₁ o₂ := by
+  cases h with
+  | none => exact .none
+  | some hab => exact .some (hRQ _ _ hab)
+
+/-- same field names in the same order, related values -/
+def DataSim {α β : Type} (R : α → β → Prop) (a : List (String × α)) (b : List (String × β)) : Prop :=
+  All₂ (fun x y => x.1 = y.1 ∧ R x.2 y.2) a b
+
+theorem lookup_sim {α β : Type} {R : α → β → Prop} {a : List (String × α)} {b : List (String × β)}
+    (h : DataSim R a b) (f : String) : Option.Rel R (a.lookup f) (b.lookup f) := by
+  induction h with
+  | nil => exact .none
+  | @cons x y l₁ l₂ hxy _ ih =>
+    obtain ⟨k₁, v₁⟩ := x
+    obtain ⟨k₂, v₂⟩ := y
+    simp only at hxy
+    obtain ⟨hk, hv⟩ := hxy
+    subst hk
+    simp only [List.lookup]
+    cases hfk : f == k₁
+    · exact ih
+    · exact .some hv
+
+def SpanSim (E : Ext) (a b : Rules.Span) : Prop := DataSim (RSim E) a.data b.data
+
+structure TSim (E : Ext) (t₁ t₂ : Rules.Trace) : Prop where
+  spans : All₂ (SpanSim E) t₁.spans t₂.spans
+  root : Option.Rel (SpanSim E) t₁.root t₂.root
+
+structure ExSim (E : Ext) (x y : Rules.Extract) : Prop where
+  val : RSim E x.val y.val
+  ex : x.ex = y.ex
+  cor : x.cor = y.cor
+
+theorem extractLoop_sim (E : Ext) {t₁ t₂ : Rules.Trace} (hroot : Option.Rel (SpanSim E) t₁.root t₂.root)
+    {s₁ s₂ : Rules.Span} (hs : SpanSim E s₁ s₂) (fs : List String) (c0 : Bool) :
+    ExSim E (Rules.extractLoop t₁ s₁ fs c0) (Rules.extractLoop t₂ s₂ fs c0) := by
+  obtain ⟨sp₁, root₁⟩ := t₁
+  obtain ⟨sp₂, root₂⟩ := t₂
+  simp only at hroot
+  induction fs generalizing c0 with
+  | nil => exact ⟨RSim.rfl' E _, rfl, rfl⟩
+  | cons f fs ih =>
+    simp only [Rules.extractLoop]
+    split
+    · cases hroot with
+      | none => exact ih c0
+      | @some r₁ r₂ hr =>
+        simp only
+        have hl := lookup_sim hr (Rules.dropPrefix f Gen.Rules.rootPrefix)
+        revert hl
+        generalize r₁.data.lookup (Rules.dropPrefix f Gen.Rules.rootPrefix) = o₁
+        generalize r₂.data.lookup (Rules.dropPrefix f Gen.Rules.rootPrefix) = o₂
+        intro hl
+        cases hl with
+        | none => exact ih c0
+        | some hv => exact ⟨hv, rfl, rfl⟩
+    · have hl := lookup_sim hs f
+      revert hl
+      generalize s₁.data.lookup f = o₁
+      generalize s₂.data.lookup f = o₂
+      intro hl
+      cases hl with
+      | none => exact ih false
+      | some hv => exact ⟨hv, rfl, rfl⟩
+
+theorem extract_sim (E : Ext) {t₁ t₂ : Rules.Trace} (ht : TSim E t₁ t₂) {s₁ s₂ : Rules.Span}
+    (hs : SpanSim E s₁ s₂) (c : Cond) : ExSim E (Rules.extract t₁ s₁ c) (Rules.extract t₂ s₂ c) := by
+  unfold Rules.extract
+  split
+  · rw [ht.spans.length_eq]; exact ⟨RSim.rfl' E _, rfl, rfl⟩
+  · exact extractLoop_sim E ht.root hs _ _
+
+theorem condOnSpan_sim (E : Ext) {t₁ t₂ : Rules.Trace} (ht : TSim E t₁ t₂) {s₁ s₂ : Rules.Span}
+    (hs : SpanSim E s₁ s₂) (c : Cond) : Rules.condOnSpan E t₁ c s₁ = Rules.condOnSpan E t₂ c s₂ := by
+  have h := extract_sim E ht hs c
+  unfold Rules.condOnSpan
+  rw [h.ex, condValue_sim E c h.val]
+
+theorem traceCond_sim (E : Ext) {t₁ t₂ : Rules.Trace} (ht : TSim E t₁ t₂) (c : Cond)
+    {l₁ l₂ : List Rules.Span} (hl : All₂ (SpanSim E) l₁ l₂) :
+    Rules.traceCond E t₁ c l₁ = Rules.traceCond E t₂ c l₂ := by
+  induction hl with
+  | nil => rfl
+  | cons hs _ ih =>
+    simp only [Rules.traceCond, condOnSpan_sim E ht hs c, (extract_sim E ht hs c).cor, ih]
+
+theorem traceLoop_sim (E : Ext) {t₁ t₂ : Rules.Trace} (ht : TSim E t₁ t₂) (cs : List Cond) (m : Nat) :
+    Rules.traceLoop E t₁ cs m = Rules.traceLoop E t₂ cs m := by
+  have hroot : t₁.root.isSome = t₂.root.isSome := by
+    have := ht.root
+    revert this
+    generalize t₁.root = o₁
+    generalize t₂.root = o₂
+    intro h
+    cases h <;> rfl
+  induction cs generalizing m with
+  | nil => rfl
+  | cons c cs ih =>
+    simp only [Rules.traceLoop, hroot, traceCond_sim E ht c ht.spans, ih]
+
+theorem spanConds_sim (E : Ext) {t₁ t₂ : Rules.Trace} (ht : TSim E t₁ t₂) {s₁ s₂ : Rules.Span}
+    (hs : SpanSim E s₁ s₂) (cs : List Cond) : Rules.spanConds E t₁ s₁ cs = Rules.spanConds E t₂ s₂ cs := by
+  induction cs with
+  | nil => rfl
+  | cons c cs ih =>
+    simp only [Rules.spanConds, condOnSpan_sim E ht hs c, (extract_sim E ht hs c).cor, ih]
+
+theorem spanLoop_sim (E : Ext) {t₁ t₂ : Rules.Trace} (ht : TSim E t₁ t₂) (cs : List Cond)
+    {l₁ l₂ : List Rules.Span} (hl : All₂ (SpanSim E) l₁ l₂) :
+    Rules.spanLoop E t₁ cs l₁ = Rules.spanLoop E t₂ cs l₂ := by
+  induction hl with
+  | nil => rfl
+  | cons hs _ ih => simp only [Rules.spanLoop, spanConds_sim E ht hs cs, ih]
+
+/-- Traces whose spans carry, position by position, the same field names and values the
+coercions cannot tell apart are matched by the same rules. -/
+theorem ruleMatches_sim (E : Ext) {t₁ t₂ : Rules.Trace} (ht : TSim E t₁ t₂) (r : Rules.Rule) :
+    Rules.ruleMatches E t₁ r = Rules.ruleMatches E t₂ r := by
+  unfold Rules.ruleMatches
+  cases r.scope with
+  | invalid => rfl
+  | span => simp only [Rules.matchSpan, spanLoop_sim E ht r.conds ht.spans]
+  | trace => simp only [Rules.matchTrace, traceLoop_sim E ht r.conds 0]
+
+
+/-! ## dynamic key: the trace enters only through the renderings of its values -/
+
+structure KSim (x : TraceKey.Ext) (u v : TraceKey.Val) : Prop where
+  conv : x.conv u = x.conv v
+  fmtv : x.fmtv u = x.fmtv v
+
+def KSpanSim (x : TraceKey.Ext) (a b : TraceKey.Span) : Prop := DataSim (KSim x) a b
+
+theorem fieldVals_sim (x : TraceKey.Ext) {s₁ s₂ : List TraceKey.Span} (h : All₂ (KSpanSim x) s₁ s₂)
+    (f : String) : TraceKey.fieldVals x.conv s₁ f = TraceKey.fieldVals x.conv s₂ f := by
+  unfold TraceKey.fieldVals
+  induction h with
+  | nil => rfl
+  | @cons a b l₁ l₂ hab _ ih =>
+    have hl := lookup_sim hab f
+    simp only [List.filterMap_cons]
+    revert hl
+    generalize List.lookup f a = o₁
+    generalize List.lookup f b = o₂
+    intro hl
+    cases hl with
+    | none => simpa using ih
+    | some hv => simp [hv.conv, ih]
+
+theorem collect_sim (cap : Nat) (conv : TraceKey.Val → String) {s₁ s₂ : List TraceKey.Span}
+    (h : ∀ f, TraceKey.fieldVals conv s₁ f = TraceKey.fieldVals conv s₂ f) (fs : List String) (cnt : Nat) :
+    TraceKey.collect cap conv s₁ fs cnt = TraceKey.collect cap conv s₂ fs cnt := by
+  induction fs generalizing cnt with
+  | nil => rfl
+  | cons f fs ih => simp only [TraceKey.collect, h f, ih]
+
+theorem renderRoot_sim (x : TraceKey.Ext) {r₁ r₂ : Option TraceKey.Span} (h : Option.Rel (KSpanSim x) r₁ r₂)
+    (fs : List String) : TraceKey.renderRoot x.fmtv r₁ fs = TraceKey.renderRoot x.fmtv r₂ fs := by
+  induction fs with
+  | nil => rfl
+  | cons f fs ih =>
+    cases h with
+    | none => simp only [TraceKey.renderRoot]
+    | @some a b hab =>
+      have hl := lookup_sim hab f
+      simp only [TraceKey.renderRoot]
+      revert hl
+      generalize List.lookup f a = o₁
+      generalize List.lookup f b = o₂
+      intro hl
+      cases hl with
+      | none => simpa using ih
+      | some hv => simp only [hv.fmtv, ih]
+
+/-- Traces whose spans carry, position by position, the same field names and values with the
+same two renderings get the same key (no cap needed: nothing is reordered). -/
+theorem build_sim (cap : Nat) (pre : String) (x : TraceKey.Ext) (c : TraceKey.Cfg) {t₁ t₂ : TraceKey.Trace}
+    (hs : All₂ (KSpanSim x) t₁.spans t₂.spans) (hr : Option.Rel (KSpanSim x) t₁.root t₂.root) :
+    TraceKey.build cap pre x c t₁ = TraceKey.build cap pre x c t₂ := by
+  unfold TraceKey.build
+  rw [collect_sim cap x.conv (fieldVals_sim x hs), renderRoot_sim x hr]
+  simp only [TraceKey.renderLen, hs.length_eq]
+
+/-! ## encoding invariance, abstractly: what the proof needs of two corresponding Go values -/
+
+/-- none of the rules sampler's four coercions and neither of the key's two renderings tells the
+two values apart -/
+structure GSim (S : Samplers) (g₁ g₂ : GoVal) : Prop where
+  rules : RSim S.E (toVal g₁) (toVal g₂)
+  key : KSim S.x (toTK g₁) (toTK g₂)
+
+/-- same field names in the same order, indistinguishable values -/
+def ESpanSim (S : Samplers) (a b : ESpan) : Prop := DataSim (GSim S) (goSpan S.dec a) (goSpan S.dec b)
+
+theorem optRel_map {α β γ δ : Type} {R : α → β → Prop} {Q : γ → δ → Prop} {f : α → γ} {g : β → δ}
+    (hfg : ∀ a b, R a b → Q (f a) (g b)) {o₁ : Option α} {o₂ : Option β} (h : Option.Rel R o₁ o₂) :
+    Option.Rel Q (o₁.map f) (o₂.map g) := by
+  cases h with
+  | none => exact .none
+  | some hab => exact .some (hfg _ _ hab)
+
+theorem rulesSpan_sim (S : Samplers) {a b : ESpan} (h : ESpanSim S a b) :
+    SpanSim S.E (rulesSpan S.dec a) (rulesSpan S.dec b) :=
+  All₂.map (fun _ _ hxy => ⟨hxy.1, hxy.2.rules⟩) h
+
+theorem keySpan_sim (S : Samplers) {a b : ESpan} (h : ESpanSim S a b) :
+    KSpanSim S.x (keySpan S.dec a) (keySpan S.dec b) :=
+  All₂.map (fun _ _ hxy => ⟨hxy.1, hxy.2.key⟩) h
+
+/-- **encoding_invariant (abstract form)** — two traces whose spans carry, position by position,
+the same field names and Go values that the coercions of the rules sampler (`%v`, to-int,
+to-float, `compare`) and the renderings of the key (`AddAsString`, `%v`) do not tell apart get the
+same outcome, whatever paths and encodings the values came in by. -/
+theorem encoding_invariant_of_sim (S : Samplers) (t₁ t₂ : ETrace)
+    (hs : All₂ (ESpanSim S) t₁.spans t₂.spans) (hr : Option.Rel (ESpanSim S) t₁.root t₂.root) :
+    outcome S t₁ = outcome S t₂ := by
+  have hT : TSim S.E (rulesTrace S.dec t₁) (rulesTrace S.dec t₂) :=
+    ⟨All₂.map (fun _ _ h => rulesSpan_sim S h) hs, optRel_map (fun _ _ h => rulesSpan_sim S h) hr⟩
+  have hKs : All₂ (KSpanSim S.x) (keyTrace S.dec t₁).spans (keyTrace S.dec t₂).spans :=
+    All₂.map (fun _ _ h => keySpan_sim S h) hs
+  have hKr : Option.Rel (KSpanSim S.x) (keyTrace S.dec t₁).root (keyTrace S.dec t₂).root :=
+    optRel_map (fun _ _ h => keySpan_sim S h) hr
+  have hlen : (keyTrace S.dec t₁).spans.length = (keyTrace S.dec t₂).spans.length := hKs.length_eq
+  have hkey : ∀ c, TraceKey.key S.cap S.pre S.x c (keyTrace S.dec t₁) = TraceKey.key S.cap S.pre S.x c (keyTrace S.dec t₂) :=
+    fun c => by unfold TraceKey.key; rw [build_sim S.cap S.pre S.x c hKs hKr]
+  have hdyn : dynOutcome S t₁ = dynOutcome S t₂ := by
+    unfold dynOutcome TraceKey.getSampleRate
+    simp only [hkey, hlen]
+  have hdown : ∀ id, downOf S (keyTrace S.dec t₁) id = downOf S (keyTrace S.dec t₂) id := by
+    intro id
+    unfold downOf
+    cases S.downs id with
+    | missing => rfl
+    | fixed d => rfl
+    | keyed c ans r => simp only [hkey, hlen]
+  have hrules : rulesOutcome S t₁ = rulesOutcome S t₂ := by
+    unfold rulesOutcome
+    exact getSampleRate_congr _ _ _ _ _ _ _ (fun r _ => ruleMatches_sim S.E hT r) hdown
+  simp only [outcome, hdyn, hrules]
+
+
+/-! ## encoding invariance on the wire: the part that holds -/
+
+/-- What the proof uses of Go's formatting: an integral `float64` of magnitude below 10^6 is
+rendered like the `int64` of the same value, by `%v` (rules: `convertToString`; key: `root.`
+fields) and by `AddAsString` (`strconv.AppendFloat(…, 'f', -1, 64)` vs `AppendInt`).  True of the
+real functions; the harness passes their graphs on every value it meets. -/
+structure GoFmt (S : Samplers) : Prop where
+  fmt_small : ∀ n : Int, n.natAbs < 1000000 → S.E.fmt (.flt n 1) = S.E.fmt (.int n)
+  fmtv_small : ∀ n : Int, n.natAbs < 1000000 → S.x.fmtv (toTK (.flt n 1)) = S.x.fmtv (toTK (.int n))
+  conv_small : ∀ n : Int, n.natAbs < 1000000 → S.x.conv (toTK (.flt n 1)) = S.x.conv (toTK (.int n))
+
+/-- the pairs of Go values the proof can show indistinguishable: identical values, and an `int64`
+against the `float64` of the same integer of magnitude below 10^6 -/
+inductive Compat : GoVal → GoVal → Prop
+  | refl (v : GoVal) : Compat v v
+  | intFlt (n : Int) : n.natAbs < 1000000 → Compat (.int n) (.flt n 1)
+  | fltInt (n : Int) : n.natAbs < 1000000 → Compat (.flt n 1) (.int n)
+
+theorem rsim_int_flt (E : Ext) (n : Int) (h : E.fmt (.flt n 1) = E.fmt (.int n)) :
+    RSim E (.int n) (.flt n 1) := by
+  refine ⟨h.symm, ?_, rfl, ?_⟩
+  · simp [Rules.tryInt]
+  · intro c
+    cases c <;> simp [Rules.compareVals, Rules.cmpQ]
+
+theorem RSim.symm {E : Ext} {v₁ v₂ : Val} (h : RSim E v₁ v₂) : RSim E v₂ v₁ :=
+  ⟨h.fmt.symm, h.int.symm, h.flt.symm, fun c => (h.cmp c).symm⟩
+
+theorem gsim_of_compat (S : Samplers) (hf : GoFmt S) {g₁ g₂ : GoVal} (h : Compat g₁ g₂) : GSim S g₁ g₂ := by
+  cases h with
+  | refl v => exact ⟨RSim.rfl' _ _, rfl, rfl⟩
+  | intFlt n hn =>
+    exact ⟨rsim_int_flt S.E n (hf.fmt_small n hn), (hf.conv_small n hn).symm, (hf.fmtv_small n hn).symm⟩
+  | fltInt n hn =>
+    exact ⟨(rsim_int_flt S.E n (hf.fmt_small n hn)).symm, hf.conv_small n hn, hf.fmtv_small n hn⟩
+
+/-- a Go value denotes a logical value: a number is a `float64` or, if integral, an `int64` -/
+def Denotes (g : GoVal) : Logical → Prop
+  | .num n d => g = .flt n d ∨ (d = 1 ∧ g = .int n)
+  | .str s => g = .str s
+  | .bool b => g = .bool b
+  | .null => g = .nil
+
+/-- on the JSON batch path the number literal is parsed to the value it denotes -/
+def JsonExact (fj : String → Int × Nat) (p : Path) (w : Wire) : Prop :=
+  ∀ lit n d, w = .jnum lit n d → p.entry = .jsonBatch → fj lit = (n, d)
+
+/-- Whatever the path and the encoding: if the samplers see a plain Go value (and a JSON batch
+number was parsed exactly), it denotes the value the encoding carries. -/
+theorem denotes_of_plain (fj : String → Int × Nat) (p : Path) (m : Bool) (w : Wire)
+    (hp : (goOf fj p m w).plain = true) (hj : JsonExact fj p w) : Denotes (goOf fj p m w) (logical w) := by
+  obtain ⟨e, vp⟩ := p
+  cases w with
+  | jnum lit n d =>
+    cases e <;> cases vp <;> cases m <;>
+      first
+        | (have := hj lit n d rfl rfl
+           simp [goOf, decode, forwarded, Entry.memoizes, logical, Denotes, this])
+        | simp [goOf, decode, forwarded, Entry.memoizes, logical, Denotes]
+  | muint n =>
+    by_cases hn : n < 128 <;> cases e <;> cases vp <;> cases m <;>
+      simp [goOf, decode, forwarded, Entry.memoizes, logical, Denotes, GoVal.plain, hn] at hp ⊢
+  | _ =>
+    cases e <;> cases vp <;> cases m <;>
+      simp_all [goOf, decode, forwarded, Entry.memoizes, logical, Denotes, GoVal.plain]
+
+theorem compat_of_denotes {g₁ g₂ : GoVal} {l : Logical} (h₁ : Denotes g₁ l) (h₂ : Denotes g₂ l)
+    (hs : ∀ n, l = .num n 1 → n.natAbs < 1000000) : Compat g₁ g₂ := by
+  cases l with
+  | num n d =>
+    rcases h₁ with h₁ | ⟨hd, h₁⟩ <;> rcases h₂ with h₂ | ⟨hd', h₂⟩ <;> subst h₁ <;> subst h₂
+    · exact .refl _
+    · subst hd'; exact .fltInt n (hs n rfl)
+    · subst hd; exact .intFlt n (hs n rfl)
+    · exact .refl _
+  | str s => simp only [Denotes] at h₁ h₂; subst h₁; subst h₂; exact .refl _
+  | bool b => simp only [Denotes] at h₁ h₂; subst h₁; subst h₂; exact .refl _
+  | null => simp only [Denotes] at h₁ h₂; subst h₁; subst h₂; exact .refl _
+
+/-- The hypothesis the proof forces on two corresponding fields `(k, w₁)` of a span that came in by
+`p₁` and `(k, w₂)` of a span that came in by `p₂`: same name, same logical value; both decode to
+int64 / float64 / string / bool / nil (so: no msgpack uint ≥ 128 or forwarded uint, no float32 and
+no bin on the msgpack batch / OTLP-less paths); JSON batch number literals are parsed exactly by
+`fastjson`; and an integral number has magnitude below 10^6. -/
+structure SafePair (S : Samplers) (p₁ p₂ : Path) (x y : String × Wire) : Prop where
+  name : x.1 = y.1
+  value : logical x.2 = logical y.2
+  plain₁ : (goOf S.fj p₁ (S.dec.sampled x.1) x.2).plain = true
+  plain₂ : (goOf S.fj p₂ (S.dec.sampled y.1) y.2).plain = true
+  exact₁ : JsonExact S.fj p₁ x.2
+  exact₂ : JsonExact S.fj p₂ y.2
+  small : ∀ n, logical x.2 = .num n 1 → n.natAbs < 1000000
+
+def SafeSpans (S : Samplers) (a b : ESpan) : Prop := All₂ (SafePair S a.path b.path) a.data b.data
+
+theorem espanSim_of_safe (S : Samplers) (hf : GoFmt S) {a b : ESpan} (h : SafeSpans S a b) : ESpanSim S a b := by
+  unfold ESpanSim goSpan
+  refine All₂.map ?_ h
+  intro x y hxy
+  refine ⟨hxy.name, gsim_of_compat S hf ?_⟩
+  have d₁ := denotes_of_plain S.fj a.path (S.dec.sampled x.1) x.2 hxy.plain₁ hxy.exact₁
+  have d₂ := denotes_of_plain S.fj b.path (S.dec.sampled y.1) y.2 hxy.plain₂ hxy.exact₂
+  rw [← hxy.value] at d₂
+  exact compat_of_denotes d₁ d₂ hxy.small
+
+/-- **encoding_invariant_partial** — for every sampler configuration: two traces whose spans
+carry, position by position, the same field names and logically equal values, in any mix of
+ingestion paths (JSON event, JSON batch, msgpack event, msgpack batch, OTLP, each possibly forwarded
+by a peer) and wire encodings, get the same decision, rate, reason and keys **provided** every value
+reaches the samplers as int64 / float64 / string / bool / nil, JSON batch literals are parsed
+exactly, and integers have magnitude below 10^6 (`SafePair`).  Combined with `order_invariant`
+the spans may also arrive in any order. -/
+theorem encoding_invariant_partial (S : Samplers) (hf : GoFmt S) (t₁ t₂ : ETrace)
+    (hs : All₂ (SafeSpans S) t₁.spans t₂.spans) (hr : Option.Rel (SafeSpans S) t₁.root t₂.root) :
+    outcome S t₁ = outcome S t₂ :=
+  encoding_invariant_of_sim S t₁ t₂ (All₂.imp (fun _ _ h => espanSim_of_safe S hf h) hs)
+    (optRel_imp (fun _ _ h => espanSim_of_safe S hf h) hr)
+
+
+/-! ## the full statement, and why it does not hold for the code -/
+
+/-- same field names (in the same order) and logically equal values, whatever the encodings -/
+def SameLogical (a b : ESpan) : Prop :=
+  All₂ (fun x y => x.1 = y.1 ∧ logical x.2 = logical y.2) a.data b.data
+
+/-- "the encodings carry the same field names and numerically equal values" -/
+structure SameContent (t₁ t₂ : ETrace) : Prop where
+  spans : All₂ SameLogical t₁.spans t₂.spans
+  root : Option.Rel SameLogical t₁.root t₂.root
+
+/-- **encoding_invariant, full statement** — two traces whose spans carry the same field names
+and numerically equal values, in any mix of ingestion paths and wire encodings, get the same
+decision, rate and keys (for every sampler configuration; formatting functions as Go's). -/
+def EncodingInvariant : Prop :=
+  ∀ (S : Samplers) (t₁ t₂ : ETrace), GoFmt S → t₁.realizable = true → t₂.realizable = true →
+    SameContent t₁ t₂ → outcome S t₁ = outcome S t₂
+
+/-! The external functions on the handful of arguments the witnesses use, with the values the
+real functions take there (each witness below is a corpus case replayed on the real code, which
+passes these very graphs as `ext` lines). -/
+
+/-- `fmt.Sprintf("%v", ·)`, strconv -/
+def goE : Ext where
+  fmt
+    | .str s => s
+    | .int n => toString n
+    | .flt n d =>
+      if d = 1 ∧ n.natAbs < 1000000 then toString n
+      else if d = 1 ∧ n = 1000000 then "1e+06"
+      else if d = 1 ∧ n = 1234567 then "1.234567e+06"
+      else "?"
+    | .bool b => toString b
+    | .nil => "<nil>"
+    | .other id =>
+      if id = "bin:GET" then "[71 69 84]" else if id = "u64:503" then "503" else if id = "u64:5" then "5"
+      else if id = "f32:5/2" then "2.5" else "?"
+  atoi _ := none
+  pfloat _ := none
+  pbool _ := none
+  rxCompiles _ := false
+  rxMatch _ _ := false
+
+/-- `AddAsString` (decimal digits for int64 and for an integral float64) and `%v` -/
+def goX : TraceKey.Ext where
+  conv tv := if tv.ty = "x" then (if tv.raw = "GET" then "[71 69 84]" else "?") else tv.raw
+  fmtv tv := if tv = ⟨"f", "1234567"⟩ then "1.234567e+06" else tv.raw
+
+/-- `fastjson`'s number parser: exact on plain decimal literals, off by one ulp on `1.000001e6` -/
+def goFj (lit : String) : Int × Nat :=
+  if lit = "1.000001e6" then (8589943181934591, 8589934592)
+  else if lit = "1000001" then (1000001, 1)
+  else if lit = "1000000" then (1000000, 1)
+  else if lit = "1234567" then (1234567, 1)
+  else (0, 1)
+
+/-- a rules sampler and a dynamic sampler over Go's functions; dynsampler answers rate 1 -/
+def mkS (rules : List Rules.Rule) (keyFields : List String) : Samplers where
+  fj := goFj
+  computedPre := Gen.Encoding.computedPrefix
+  E := goE
+  x := goX
+  cap := Gen.Encoding.maxKeyLength.toNat
+  pre := Gen.Encoding.rootPrefix
+  rules := rules
+  downs := fun _ => .missing
+  intn := fun _ => 0
+  keyCfg := ⟨keyFields, false⟩
+  dyn := fun _ _ => 1
+  dintn := fun _ => 0
+
+theorem goFmt_mkS (rules : List Rules.Rule) (keyFields : List String) : GoFmt (mkS rules keyFields) := by
+  refine ⟨?_, ?_, ?_⟩
+  · intro n hn; simp [mkS, goE, hn]
+  · intro n hn
+    have hne : n ≠ 1234567 := by intro h; subst h; simp at hn
+    have h1 : ¬ (n.repr = "1234567") := by
+      intro h
+      have : Int.repr n = Int.repr 1234567 := by
+        have h2 : Int.repr (1234567 : Int) = "1234567" := by decide
+        rw [h2]; exact h
+      exact hne (Int.repr_inj.mp this)
+    simp [mkS, goX, toTK, h1]
+  · intro n _; simp [mkS, goX, toTK]
+
+def oneRule (name : String) (drop : Bool) (c : Cond) : Rules.Rule :=
+  { name := name, rate := 1, drop := drop, scope := .trace, conds := [c] }
+
+/-- a trace of one span (its own root) with one field, coming in by `p` encoded as `w` -/
+def one (p : Path) (k : String) (w : Wire) : ETrace := ⟨[⟨p, [(k, w)]⟩], some ⟨p, [(k, w)]⟩⟩
+
+theorem sameContent_one (p₁ p₂ : Path) (k : String) (w₁ w₂ : Wire) (h : logical w₁ = logical w₂) :
+    SameContent (one p₁ k w₁) (one p₂ k w₂) :=
+  ⟨.cons (.cons ⟨rfl, h⟩ .nil) .nil, .some (.cons ⟨rfl, h⟩ .nil)⟩
+
+/-- the sampler configurations of the witnesses -/
+def sUint : Samplers := mkS [oneRule "drop5xx" true { field := "status", op := .gte, dt := .int, val := .int 500 }] []
+def sF32 : Samplers := mkS [oneRule "slow" true { field := "duration_ms", op := .gt, dt := .float, val := .flt 3 2 }] []
+def sBin : Samplers := mkS [oneRule "get" true { field := "method", op := .eq, val := .str "GET" }] ["method"]
+def sPctV : Samplers := mkS [oneRule "tenant" true { field := "tenant_id", op := .eq, dt := .str, val := .str "1000000" }] []
+def sRootKey : Samplers := mkS [] ["root.tenant_id"]
+def sJson : Samplers := mkS [oneRule "exact" true { field := "v", op := .eq, val := .int 1000001 }] []
+def sFwd : Samplers := mkS [oneRule "retry" true { field := "retries", op := .gt, dt := .float, val := .int 2 }] []
+
+def mb : Path := ⟨.msgpBatch, false⟩
+def je : Path := ⟨.jsonEvent, false⟩
+def jb : Path := ⟨.jsonBatch, false⟩
+
+/-- **(a) msgpack unsigned integers are not numeric**: `status >= 500` (Datatype int) drops the
+trace whose span carries `status = 503` as a msgpack int, and keeps it when the same 503 is a
+msgpack uint (0xcd 0x01f7), which decodes to `uint64`: `tryConvertToInt` has no case for it. -/
+theorem uint_not_numeric :
+    (outcome sUint (one mb "status" (.mint 503))).rules.keep = false ∧
+    (outcome sUint (one mb "status" (.muint 503))).rules.keep = true := by decide
+
+/-- **(a) msgpack 32-bit floats are not numeric**: `duration_ms > 1.5` (Datatype float) matches
+2.5 sent as float64 and not 2.5 sent as float32 (`tryConvertToFloat` has no case for `float32`). -/
+theorem float32_not_numeric :
+    (outcome sF32 (one mb "duration_ms" (.mf64 5 2))).rules.keep = false ∧
+    (outcome sF32 (one mb "duration_ms" (.mf32 5 2))).rules.keep = true := by decide
+
+/-- **msgpack bin is not a string** on the batch path: `method = "GET"` matches the str encoding,
+not the bin encoding (`[]byte`; `compare` has no case), and the dynamic key of the latter is
+`[71 69 84]`.  (`msgpTypeToFieldType` classifies bin as a string; `/1/events` decodes it to one.) -/
+theorem bin_not_string :
+    (outcome sBin (one mb "method" (.mstr "GET"))).rules.keep = false ∧
+    (outcome sBin (one mb "method" (.mbin "GET"))).rules.keep = true ∧
+    (outcome sBin (one mb "method" (.mstr "GET"))).dynKey = "GET•," ∧
+    (outcome sBin (one mb "method" (.mbin "GET"))).dynKey = "[71 69 84]•," := by decide
+
+/-- **(b) `%v` of a large integer, rules**: `tenant_id = "1000000"` (Datatype string) matches the
+msgpack int (rendered `1000000`) and not the same number from JSON, which is a `float64` rendered
+`1e+06`. -/
+theorem percent_v_large_int_rules :
+    (outcome sPctV (one mb "tenant_id" (.mint 1000000))).rules.keep = false ∧
+    (outcome sPctV (one je "tenant_id" (.jnum "1000000" 1000000 1))).rules.keep = true := by decide
+
+/-- **(b) `%v` of a large integer, root-field key**: with key field `root.tenant_id` the msgpack
+int 1234567 gives the key `1234567,` and the JSON number 1234567 the key `1.234567e+06,`. -/
+theorem percent_v_large_int_root_key :
+    (outcome sRootKey (one mb "tenant_id" (.mint 1234567))).dynKey = "1234567," ∧
+    (outcome sRootKey (one je "tenant_id" (.jnum "1234567" 1234567 1))).dynKey = "1.234567e+06," := by decide
+
+/-- **JSON batch number parsing**: the JSON document `{"v": 1.000001e6}` matches `v = 1000001`
+on `/1/events` and not on `/1/batch`, whose `fastjson` parser yields 1000000.9999999999. -/
+theorem json_batch_number_parse :
+    (outcome sJson (one je "v" (.jnum "1.000001e6" 1000001 1))).rules.keep = false ∧
+    (outcome sJson (one jb "v" (.jnum "1.000001e6" 1000001 1))).rules.keep = true := by decide
+
+/-- **forwarding changes the type**: the very same bytes (`retries` = 5 as a msgpack uint8) are a
+`uint64` for the node that received them and an `int64` for the peer they were forwarded to
+(`AppendUint64` writes a fixint), so `retries > 2` matches only after forwarding. -/
+theorem forwarded_small_uint :
+    (outcome sFwd (one mb "retries" (.muint 5))).rules.keep = true ∧
+    (outcome sFwd (one ⟨.msgpBatch, true⟩ "retries" (.muint 5))).rules.keep = false := by decide
+
+/-- **encoding_invariant is refuted** for the code: the two traces of `uint_not_numeric` carry the
+same field name and the same number 503, are both realizable, and get different decisions. -/
+theorem encoding_invariant_refuted : ¬ EncodingInvariant := by
+  intro h
+  have := h sUint (one mb "status" (.mint 503)) (one mb "status" (.muint 503)) (goFmt_mkS _ _)
+    (by decide) (by decide) (sameContent_one _ _ _ _ _ (by decide))
+  have hk := congrArg (fun o => o.rules.keep) this
+  simp only [uint_not_numeric.1, uint_not_numeric.2] at hk
+  exact absurd hk (by decide)
+
+/-- every other witness pair also satisfies the hypotheses of the full statement -/
+theorem witnesses_same_content :
+    SameContent (one mb "duration_ms" (.mf64 5 2)) (one mb "duration_ms" (.mf32 5 2)) ∧
+    SameContent (one mb "method" (.mstr "GET")) (one mb "method" (.mbin "GET")) ∧
+    SameContent (one mb "tenant_id" (.mint 1000000)) (one je "tenant_id" (.jnum "1000000" 1000000 1)) ∧
+    SameContent (one mb "tenant_id" (.mint 1234567)) (one je "tenant_id" (.jnum "1234567" 1234567 1)) ∧
+    SameContent (one je "v" (.jnum "1.000001e6" 1000001 1)) (one jb "v" (.jnum "1.000001e6" 1000001 1)) ∧
+    SameContent (one mb "retries" (.muint 5)) (one ⟨.msgpBatch, true⟩ "retries" (.muint 5)) :=
+  ⟨sameContent_one _ _ _ _ _ (by decide), sameContent_one _ _ _ _ _ (by decide), sameContent_one _ _ _ _ _ (by decide),
+   sameContent_one _ _ _ _ _ (by decide), sameContent_one _ _ _ _ _ (by decide), sameContent_one _ _ _ _ _ (by decide)⟩
+
+/-! ## what each path decodes to (the table the correspondence check replays) -/
+
+/-- JSON numbers are `float64` on both JSON paths, forwarded or not, whatever their spelling. -/
+theorem json_numbers_are_float64 (fj : String → Int × Nat) (e : Entry) (vp m : Bool) (lit : String) (n : Int) (d : Nat)
+    (he : e.format = .json) : ∃ q : Int × Nat, goOf fj ⟨e, vp⟩ m (.jnum lit n d) = .flt q.1 q.2 := by
+  cases e <;> cases vp <;> cases m <;> simp [Entry.format] at he <;>
+    first
+      | exact ⟨(n, d), rfl⟩
+      | exact ⟨fj lit, rfl⟩
+
+/-- The msgpack batch path keeps the wire type: uint → `uint64`, float32 → `float32`, bin →
+`[]byte`; the msgpack event path widens float32 and reads bin as a string, but not uint. -/
+theorem msgpack_decode_table (fj : String → Int × Nat) (m : Bool) (n : Nat) (q : Int) (d : Nat) (s : String) :
+    goOf fj ⟨.msgpBatch, false⟩ m (.muint n) = .u64 n ∧ goOf fj ⟨.msgpBatch, false⟩ m (.mf32 q d) = .f32 q d ∧
+    goOf fj ⟨.msgpBatch, false⟩ m (.mbin s) = .bin s ∧
+    goOf fj ⟨.msgpEvent, false⟩ m (.muint n) = .u64 n ∧ goOf fj ⟨.msgpEvent, false⟩ m (.mf32 q d) = .flt q d ∧
+    goOf fj ⟨.msgpEvent, false⟩ m (.mbin s) = .str s :=
+  ⟨rfl, rfl, rfl, rfl, rfl, rfl⟩
+
+/-- Forwarding to a peer does not change a value of the plain types. -/
+theorem forward_plain (v : GoVal) (h : v.plain = true) : forwarded v = v := by
+  cases v <;> simp_all [forwarded, GoVal.plain]
+
+/-! ## non-vacuity: concrete configurations and traces, evaluated by the kernel -/
+
+def sEx : Samplers :=
+  mkS [{ name := "r0", rate := 1, drop := true, scope := .span,
+         conds := [{ field := "a", op := .gte, val := .int 200 }, { field := "root.b", op := .startsWith, val := .str "ab" }] }]
+      ["a", "root.b"]
+
+def spA (p : Path) (w : Wire) : ESpan := ⟨p, [("a", w)]⟩
+def spR (p : Path) (a b : Wire) : ESpan := ⟨p, [("a", a), ("b", b)]⟩
+
+-- three spans in two orders and two mixes of paths / encodings: same outcome, and it is a drop by rule r0
+example : outcome sEx ⟨[spA mb (.mint 200), spR mb (.mint 5) (.mstr "abc"), spA mb (.mint 404)], some (spR mb (.mint 5) (.mstr "abc"))⟩
+    = ⟨⟨1, false, .rule .span "r0", ""⟩, "200•404•5•,abc,", .ok 1 true⟩ := by decide
+example : outcome sEx ⟨[spA ⟨.otlp, true⟩ (.odbl 404 1), spA ⟨.msgpEvent, false⟩ (.mf32 200 1), spR ⟨.msgpEvent, true⟩ (.mf64 5 1) (.mbin "abc")],
+      some (spR ⟨.msgpEvent, true⟩ (.mf64 5 1) (.mbin "abc"))⟩
+    = ⟨⟨1, false, .rule .span "r0", ""⟩, "200•404•5•,abc,", .ok 1 true⟩ := by decide
+example : BelowCaps sEx [spA mb (.mint 200), spR mb (.mint 5) (.mstr "abc"), spA mb (.mint 404)] :=
+  ⟨by decide, by intro id c ans r h; simp [sEx, mkS] at h⟩
+example : SafeSpans sEx (spR mb (.mint 5) (.mstr "abc")) (spR ⟨.msgpEvent, true⟩ (.mf64 5 1) (.mbin "abc")) :=
+  .cons ⟨rfl, rfl, by decide, by decide, (by intro l n d h; cases h), (by intro l n d h; cases h), (by intro n h; cases h; decide)⟩
+    (.cons ⟨rfl, rfl, by decide, by decide, (by intro l n d h; cases h), (by intro l n d h; cases h), (by intro n h; cases h)⟩ .nil)
+example : (samplingFields sEx) = ["a", "b", "a", "b"] := by decide
 
 end Refinery.Props.C09
